@@ -100,7 +100,7 @@ func init() {
 	core.Register(&core.Prop{
 		ID:    "C09",
 		Level: "exploration",
-		Rule: "Plus (1 case of 50) trees deeper than PATH_MAX built relative to directory descriptors - a walk that returns nil has reported every entry - and sub-root names that are no path element ('.', '..', '/'). random trees (adversarial name pool with bytes below and above '/', 255-byte names, all entry types incl. sockets, extended POSIX access ACLs and default ACLs (system.posix_acl_*) on files and directories in 1 tree of 8, hard-link groups of files and of special files, depth<=6) are created on disk; fsutil.Walk, fsutil.WalkDir, FS.Walk on a sub-target and SubDirFS are run and their callback sequences compared with an independent lstat/readlink/listxattr snapshot sorted component-wise. " +
+		Rule: "Plus (1 case of 50) trees deeper than PATH_MAX built relative to directory descriptors - a walk that returns nil has reported every entry - and sub-root names that are no path element ('.', '..', '/'). random trees (adversarial name pool with bytes below and above '/', 255-byte names, all entry types incl. sockets, symlinks with a second name (1 tree of 6), extended POSIX access ACLs and default ACLs (system.posix_acl_*) on files and directories in 1 tree of 8, hard-link groups of files and of special files, depth<=6) are created on disk; fsutil.Walk, fsutil.WalkDir, FS.Walk on a sub-target and SubDirFS are run and their callback sequences compared with an independent lstat/readlink/listxattr snapshot sorted component-wise. " +
 			"non-trivial = tree that has an order-sensitive sibling set (directory 'x' with children next to 'x<byte below />...'), a link group or a special file; distinct by tree fingerprint",
 		Assumptions: []string{"runs as root on a file system with mknod, user.* and trusted.* xattrs", "the tree is not modified during the walk"},
 		Cases: func(tier string) int {
@@ -211,6 +211,28 @@ func c09Run(c *core.Ctx) *core.Result {
 	if err := tree.Materialise(src, t); err != nil {
 		r.Inconclusive = "materialise: " + err.Error()
 		return r
+	}
+	// symlinks with a second name (link(2) on a symlink links the symlink):
+	// every name is reported as the symlink it is, with its target
+	if lr := core.NewRand(core.Mix(c.Seed, "C09-linked-symlinks", c.Index)); lr.P(1, 6) {
+		for i := range t.Entries {
+			e := &t.Entries[i]
+			if e.Type != tree.Symlink || !lr.P(1, 2) {
+				continue
+			}
+			nw := e.Path + core.Pick(lr, []string{"~2", ".hl", "-zz"})
+			if t.Get(nw) == nil && len(filepath.Base(nw)) < 250 {
+				full := filepath.Join(src, tree.Parent(e.Path))
+				var pst unix.Stat_t
+				if unix.Lstat(full, &pst) != nil {
+					continue
+				}
+				if os.Link(filepath.Join(src, e.Path), filepath.Join(src, nw)) == nil {
+					r.Count("symlinks_with_a_second_name", 1)
+				}
+				unix.UtimesNanoAt(unix.AT_FDCWD, full, []unix.Timespec{pst.Atim, pst.Mtim}, unix.AT_SYMLINK_NOFOLLOW)
+			}
+		}
 	}
 	// POSIX ACLs: attributes of the system.* namespace the kernel lists like
 	// any other (an extended access ACL on a file or directory, a default ACL
